@@ -10,7 +10,7 @@ Definition BATCH : N := utils_batch_size.
 Lemma BATCHpos : 0 < BATCH. Proof. reflexivity. Qed.
 
 Theorem c12_source_shape :
-  translated_conn = true /\ stream_mysqlstream_write_ok = true /\ stream_mysqlstream_drain_ok = true /\
+  translated_conn = true /\ stream_mysqlstream_write_ok = true /\ stream_mysqlstream_drain_ok = true /\ stream_mysqlstream_start_tls_ok = true /\
   utils_cooperative_iterate_ok = true /\ utils_aiterate_ok = true /\ connection_connection_text_resultset_ok = true /\
   connection_connection_handle_query_ok = true /\ connection_connection_handle_stmt_execute_ok = true /\
   connection_connection_handle_stmt_fetch_ok = true /\ stream_flush_rule_ge = true /\ stream_buffer_size = B /\
